@@ -22,7 +22,7 @@ Extraction "mmdmodel.ml"
   Utf8.valid_utf8 XmlDfa.xml_safe
   CriticModel.critic_accept CriticModel.critic_reject CriticModel.critic_accept_range CriticModel.critic_reject_range
   TranscludeModel.transclude_top
-  MetaModel.meta_parse MetaModel.meta_value_for
+  MetaModel.meta_parse MetaModel.meta_value_for MetaModel.meta_update
   AnchorModel.export AnchorModel.wf_doc AnchorModel.forward_only AnchorModel.nocite_free
   HeaderIdModel.header_id HeaderIdModel.header_span HeaderIdModel.manual_id HeaderIdModel.reference_label
   OpmlModel.xml_as_text OpmlModel.export_tags OpmlModel.import_levels OpmlModel.properly_nested
